@@ -4,6 +4,7 @@
 package packfile
 
 import (
+	"bytes"
 	"encoding/binary"
 	"encoding/hex"
 	"errors"
@@ -176,19 +177,19 @@ func (r *PackfileReader) ReadObject() (objType int, b []byte, err error) {
 	if err != nil {
 		return
 	}
-	var read uint64 = 0
-	b = make([]byte, int(u))
-	for read < u {
-		n, err := r.r.Read(b[read:])
-		if err != nil && err != io.EOF {
-			return 0, nil, err
-		}
-		read += uint64(n)
-		if errors.Is(err, io.EOF) && read < u {
-			return 0, nil, io.ErrUnexpectedEOF
-		}
+	if u > math.MaxInt64 {
+		return 0, nil, fmt.Errorf("reading object: data corrupted")
 	}
-	return
+	// the length comes from the input: let the buffer grow with the bytes that
+	// actually arrive instead of allocating it up front
+	body := bytes.NewBuffer(nil)
+	if _, err := io.CopyN(body, r.r, int64(u)); err != nil {
+		if errors.Is(err, io.EOF) {
+			err = io.ErrUnexpectedEOF
+		}
+		return 0, nil, err
+	}
+	return objType, body.Bytes(), nil
 }
 
 func (r *PackfileReader) Close() error {
